@@ -111,9 +111,14 @@ class Mesh:
         return [len(b) for b in self.boxes]
 
 
-def deep_mesh(nlev=11, ndims=2):
+def deep_mesh(nlev=11, ndims=2, corner='lower'):
     """nlev levels of one 2-cell-wide box each, every level refining the first cell of the one below: level numbers with two
-    digits (Level_10) at the cost of a handful of cells.  For the reader only: a covering grid of the finest level is huge."""
+    digits (Level_10) at the cost of a handful of cells.  For the reader only: a covering grid of the finest level is huge.
+    corner='upper': every level refines the LAST cell of the one below, so the cell indices grow with the level (1022..1023 on
+    level 9): FAB header lines of more than 100 characters, offsets and indices with four digits."""
+    if corner == 'upper':
+        boxes = [[((2 ** (l + 1) - 2,) * ndims, (2 ** (l + 1) - 1,) * ndims)] for l in range(nlev)]
+        return Mesh('%dd-%dlev-deep-upper' % (ndims, nlev), ndims, (2,) * ndims, boxes)
     lo = (0,) * ndims
     hi = (1,) * ndims
     return Mesh('%dd-%dlev-deep' % (ndims, nlev), ndims, (2,) * ndims, [[(lo, hi)] for _ in range(nlev)])
